@@ -23,21 +23,39 @@ theorem DT.promote_eq_both {a b : DT} (h1 : DT.promote a b = a) (h2 : DT.promote
 @[simp] theorem andThen_ok (v : Ty) (f : Ty → R) : andThen (.ok v) f = f v := rfl
 @[simp] theorem andThen_error (e : TErr) (f : Ty → R) : andThen (.error e) f = .error e := rfl
 
+theorem sealBlk_ok {t : Ty} (h : TOp.isHet t.sh = false) : sealBlk (.ok t) = .ok t := by
+  obtain ⟨dt, sh⟩ := t
+  cases sh <;> simp_all [sealBlk, TOp.isHet]
+
+@[simp] theorem sealBlk_error (e : TErr) : sealBlk (.error e) = .error e := rfl
+
 namespace Faithful
 
 theorem call_ok {A : TOp} (h : Faithful A) : A.call ⟨A.idt, A.ish⟩ = .ok ⟨A.odt, A.osh⟩ := by
-  simp [TOp.call, h.eval_ok]
+  simp [TOp.call, h.eval_ok, sealBlk_ok (t := ⟨A.odt, A.osh⟩) h.osh_nh]
 
 theorem adjC_ok {A : TOp} (h : Faithful A) : A.adjC ⟨A.odt, A.osh⟩ = .ok ⟨A.idt, A.ish⟩ := by
-  simp [TOp.adjC, h.adj_ok]
+  simp [TOp.adjC, h.adj_ok, sealBlk_ok (t := ⟨A.idt, A.ish⟩) h.ish_nh]
 
 end Faithful
+
+theorem isHet_collapseShp {s : Shp} (h : TOp.isHet s = false) : TOp.isHet (collapseShp s) = false := by
+  cases s with
+  | arr d => rfl
+  | het bs => simp [TOp.isHet] at h
+  | blk bs =>
+    cases bs with
+    | nil => rfl
+    | cons d rest => simp only [collapseShp]; split <;> rfl
+
+theorem isHet_collapseIf {s : Shp} (c : Bool) (h : TOp.isHet s = false) : TOp.isHet (collapseIf c s) = false := by
+  cases c <;> simp [collapseIf, h, isHet_collapseShp h]
 
 /-! ### one lemma per construction -/
 
 theorem add_faithful {A B : TOp} (hA : Faithful A) (hB : Faithful B) (hi : A.ish = B.ish) (ho : A.osh = B.osh)
     (hdi : A.idt = B.idt) (hdo : A.odt = B.odt) : Faithful (TOp.add A B) := by
-  constructor
+  refine ⟨?_, ?_, hA.ish_nh, hA.osh_nh⟩
   · show andThen (A.call ⟨A.idt, A.ish⟩) _ = _
     rw [hA.call_ok]
     simp only [andThen_ok]
@@ -52,7 +70,7 @@ theorem add_faithful {A B : TOp} (hA : Faithful A) (hB : Faithful B) (hi : A.ish
     simp [tadd, hi, hdi, DT.promote_self]
 
 theorem smul_faithful {A : TOp} (hA : Faithful A) (k : SK) : Faithful (TOp.smul k A) := by
-  constructor
+  refine ⟨?_, ?_, hA.ish_nh, hA.osh_nh⟩
   · show andThen (A.call ⟨A.idt, A.ish⟩) _ = _
     rw [hA.call_ok]
     rfl
@@ -62,7 +80,7 @@ theorem smul_faithful {A : TOp} (hA : Faithful A) (k : SK) : Faithful (TOp.smul 
 
 theorem comp_faithful {A B : TOp} (hA : Faithful A) (hB : Faithful B) (hs : A.ish = B.osh) (hd : A.idt = B.odt) :
     Faithful (TOp.comp A B) := by
-  constructor
+  refine ⟨?_, ?_, hB.ish_nh, hA.osh_nh⟩
   · show andThen (B.call ⟨B.idt, B.ish⟩) A.call = _
     rw [hB.call_ok]
     simp only [andThen_ok]
@@ -75,7 +93,7 @@ theorem comp_faithful {A B : TOp} (hA : Faithful A) (hB : Faithful B) (hs : A.is
     rfl
 
 theorem herm_faithful {A : TOp} (hA : Faithful A) : Faithful (TOp.herm A) :=
-  ⟨hA.adjC_ok, hA.call_ok⟩
+  ⟨by simpa [TOp.herm, TOp.adjC, TOp.call] using hA.adjC_ok, by simpa [TOp.herm] using hA.call_ok, hA.osh_nh, hA.ish_nh⟩
 
 theorem tr_faithful {A : TOp} (hA : Faithful A) : Faithful (TOp.tr A) := herm_faithful hA
 
@@ -88,7 +106,7 @@ theorem trCoded_faithful {A : TOp} (hA : Faithful A) (h : A.idt.cplx = false ∨
       · rw [hc] at h; cases h
       · exact h
     rw [if_pos hc]
-    constructor
+    refine ⟨?_, ?_, hA.osh_nh, hA.ish_nh⟩
     · show A.adjC ⟨A.idt, A.osh⟩ = .ok ⟨A.odt, A.ish⟩
       rw [he, hA.adjC_ok, ← he]
     · show A.call ⟨A.odt, A.ish⟩ = .ok ⟨A.idt, A.osh⟩
@@ -97,10 +115,10 @@ theorem trCoded_faithful {A : TOp} (hA : Faithful A) (h : A.idt.cplx = false ∨
     exact herm_faithful hA
 
 theorem cj_faithful {A : TOp} (hA : Faithful A) : Faithful (TOp.cj A) :=
-  ⟨hA.call_ok, hA.adjC_ok⟩
+  ⟨hA.call_ok, hA.adjC_ok, hA.ish_nh, hA.osh_nh⟩
 
 theorem gram_faithful {A : TOp} (hA : Faithful A) : Faithful (TOp.gram A) := by
-  constructor <;>
+  refine ⟨?_, ?_, hA.ish_nh, hA.ish_nh⟩ <;>
   · show andThen (A.call ⟨A.idt, A.ish⟩) A.adjC = _
     rw [hA.call_ok]
     simp only [andThen_ok]
@@ -111,10 +129,11 @@ theorem isArr_eq {s : Shp} (h : TOp.isArr s = true) : s = .arr (TOp.dimsOf s) :=
   cases s with
   | arr d => rfl
   | blk bs => simp [TOp.isArr] at h
+  | het bs => simp [TOp.isArr] at h
 
 theorem vone_faithful {A : TOp} (hA : Faithful A) (ho : TOp.isArr A.osh = true) : Faithful (TOp.vone A) := by
   have e := isArr_eq ho
-  constructor
+  refine ⟨?_, ?_, hA.ish_nh, rfl⟩
   · show andThen (A.call ⟨A.idt, A.ish⟩) oneBlk = _
     rw [hA.call_ok]
     simp only [andThen_ok]
@@ -128,13 +147,15 @@ theorem vcons_faithful {A S : TOp} (hA : Faithful A) (hS : Faithful S) (ho : TOp
     (hblk : S.osh = .blk (TOp.blocksOf S.osh)) (hi : A.ish = S.ish) (hdi : A.idt = S.idt) (hdo : A.odt = S.odt) :
     Faithful (TOp.vcons A S) := by
   have e := isArr_eq ho
-  constructor
-  · show andThen (A.call ⟨A.idt, A.ish⟩) _ = _
-    rw [hA.call_ok]
+  refine ⟨?_, ?_, hA.ish_nh, rfl⟩
+  · have e2 : (if (⟨A.idt, A.ish⟩ : Ty).sh = S.ish then S.evalT ⟨A.idt, A.ish⟩ else Except.error TErr.shape)
+        = .ok ⟨S.odt, S.osh⟩ := by
+      rw [if_pos hi, hdi, hi, hS.eval_ok]
+    show andThen (A.call ⟨A.idt, A.ish⟩) (fun a => andThen
+      (if (⟨A.idt, A.ish⟩ : Ty).sh = S.ish then S.evalT ⟨A.idt, A.ish⟩ else Except.error TErr.shape) fun s => consBlk a s) = _
+    rw [hA.call_ok, e2]
     simp only [andThen_ok]
-    dsimp only [TOp.vcons]
-    rw [hdi, hi, hS.call_ok]
-    simp only [andThen_ok]
+    show consBlk ⟨A.odt, A.osh⟩ ⟨S.odt, S.osh⟩ = .ok ⟨A.odt, .blk (TOp.dimsOf A.osh :: TOp.blocksOf S.osh)⟩
     rw [e, hblk]
     simp [consBlk, hdo, TOp.dimsOf, TOp.blocksOf]
   · show andThen (A.adjC ⟨A.odt, .arr (TOp.dimsOf A.osh)⟩) _ = _
@@ -145,7 +166,7 @@ theorem vcons_faithful {A S : TOp} (hA : Faithful A) (hS : Faithful S) (ho : TOp
     simp [tadd, hi, hdi, DT.promote_self]
 
 theorem vfin_faithful {S : TOp} (hS : Faithful S) : Faithful (TOp.vfin S) := by
-  constructor
+  refine ⟨?_, ?_, hS.ish_nh, isHet_collapseShp hS.osh_nh⟩
   · show andThen (S.evalT ⟨S.idt, S.ish⟩) _ = _
     rw [hS.eval_ok]
     rfl
@@ -157,7 +178,7 @@ theorem done_faithful {A : TOp} (hA : Faithful A) (hi : TOp.isArr A.ish = true) 
     Faithful (TOp.done A) := by
   have ei := isArr_eq hi
   have eo := isArr_eq ho
-  constructor
+  refine ⟨?_, ?_, rfl, rfl⟩
   · show andThen (A.call ⟨A.idt, .arr (TOp.dimsOf A.ish)⟩) oneBlk = _
     rw [← ei, hA.call_ok]
     simp only [andThen_ok]
@@ -174,7 +195,7 @@ theorem dcons_faithful {A S : TOp} (hA : Faithful A) (hS : Faithful S) (hi : TOp
     (hdi : A.idt = S.idt) (hdo : A.odt = S.odt) : Faithful (TOp.dcons A S) := by
   have ei := isArr_eq hi
   have eo := isArr_eq ho
-  constructor
+  refine ⟨?_, ?_, rfl, rfl⟩
   · show andThen (A.call ⟨A.idt, .arr (TOp.dimsOf A.ish)⟩) _ = _
     rw [← ei, hA.call_ok]
     simp only [andThen_ok]
@@ -193,7 +214,7 @@ theorem dcons_faithful {A S : TOp} (hA : Faithful A) (hS : Faithful S) (hi : TOp
     simp [consBlk, hdi, TOp.dimsOf, TOp.blocksOf]
 
 theorem dfin_faithful {S : TOp} (hS : Faithful S) (ci co : Bool) : Faithful (TOp.dfin ci co S) := by
-  constructor
+  refine ⟨?_, ?_, isHet_collapseIf ci hS.ish_nh, isHet_collapseIf co hS.osh_nh⟩
   · show andThen (S.evalT ⟨S.idt, S.ish⟩) _ = _
     rw [hS.eval_ok]
     rfl
@@ -202,7 +223,7 @@ theorem dfin_faithful {S : TOp} (hS : Faithful S) (ci co : Bool) : Faithful (TOp
     rfl
 
 theorem drep_faithful {A : TOp} (hA : Faithful A) (k ia oa : Nat) : Faithful (TOp.drep k ia oa A) := by
-  constructor
+  refine ⟨?_, ?_, rfl, rfl⟩
   · show andThen (A.call ⟨A.idt, A.ish⟩) _ = _
     rw [hA.call_ok]
     rfl
@@ -356,15 +377,18 @@ theorem add_mixed_adj_fails {A B : TOp} (hgA : A.guard = true) (hgB : B.guard = 
     unfold TOp.adjC
     rw [hg, ho, hs]
     simp only [h1, h2, ne_eq, not_true_eq_false, decide_false, Bool.and_false, Bool.false_eq_true, if_false, if_true]
-    show ∃ e, andThen (A.adjC y) _ = .error e
-    by_cases ha : y.dt = A.odt
-    · -- then `y.dt ≠ B.odt`: the second operand's guard raises (or the first one's closure did)
-      have hb : y.dt ≠ B.odt := fun hb => hd (ha.symm.trans hb)
-      have eB : B.adjC y = .error .dtype := by simp [TOp.adjC, hgB, hb]
-      cases hA : A.adjC y with
-      | error e => exact ⟨e, rfl⟩
-      | ok a => exact ⟨.dtype, by simp [eB]⟩
-    · exact ⟨.dtype, by simp [TOp.adjC, hgA, ha]⟩
+    have key : ∃ e, (TOp.add A B).adjT y = .error e := by
+      show ∃ e, andThen (A.adjC y) _ = .error e
+      by_cases ha : y.dt = A.odt
+      · -- then `y.dt ≠ B.odt`: the second operand's guard raises (or the first one's closure did)
+        have hb : y.dt ≠ B.odt := fun hb => hd (ha.symm.trans hb)
+        have eB : B.adjC y = .error .dtype := by simp [TOp.adjC, hgB, hb]
+        cases hA : A.adjC y with
+        | error e => exact ⟨e, rfl⟩
+        | ok a => exact ⟨.dtype, by simp [eB]⟩
+      · exact ⟨.dtype, by simp [TOp.adjC, hgA, ha]⟩
+    obtain ⟨e, he⟩ := key
+    exact ⟨e, by rw [he]; rfl⟩
   · apply adjC_rejects rfl
     by_cases h1 : y.dt = DT.promote A.odt B.odt
     · right
@@ -383,13 +407,16 @@ theorem add_mixed_adj_dtype_error {A B : TOp} (hA : Faithful A) (hgA : A.guard =
   rw [show (TOp.add A B).guard = true from rfl]
   simp only [ne_eq, not_true_eq_false, decide_false, Bool.and_false, Bool.false_eq_true, if_false, if_true]
   rw [ho, hs]
-  show andThen (A.adjC ⟨DT.promote A.odt B.odt, A.osh⟩) _ = _
-  by_cases ha : DT.promote A.odt B.odt = A.odt
-  · rw [ha, hA.adjC_ok]
-    simp only [andThen_ok]
-    have hb : A.odt ≠ B.odt := hd
-    simp [TOp.adjC, hgB, hb]
-  · simp [TOp.adjC, hgA, ha]
+  have key : (TOp.add A B).adjT ⟨DT.promote A.odt B.odt, A.osh⟩ = .error .dtype := by
+    show andThen (A.adjC ⟨DT.promote A.odt B.odt, A.osh⟩) _ = _
+    by_cases ha : DT.promote A.odt B.odt = A.odt
+    · rw [ha, hA.adjC_ok]
+      simp only [andThen_ok]
+      have hb : A.odt ≠ B.odt := hd
+      simp [TOp.adjC, hgB, hb]
+    · simp [TOp.adjC, hgA, ha]
+  rw [key]
+  rfl
 
 /-- operands that agree on the output dtype but not on the input dtype: `adj` returns an array that is not of the
     declared input dtype (so the sum cannot be composed, transposed, …) -/
@@ -401,12 +428,15 @@ theorem add_mixed_input_unfaithful {A B : TOp} (hA : Faithful A) (hB : Faithful 
   unfold TOp.adjC
   rw [show (TOp.add A B).guard = true from rfl]
   simp only [ne_eq, not_true_eq_false, decide_false, Bool.and_false, Bool.false_eq_true, if_false, if_true]
-  show andThen (A.adjC ⟨DT.promote A.odt B.odt, A.osh⟩) _ = _
-  rw [← hdo, DT.promote_self, hA.adjC_ok]
-  simp only [andThen_ok]
-  dsimp only [TOp.add]
-  rw [← hdo, DT.promote_self, hdo, ho, hB.adjC_ok]
-  simp [tadd, hi]
+  have key : (TOp.add A B).adjT ⟨(TOp.add A B).odt, (TOp.add A B).osh⟩ = .ok ⟨DT.promote A.idt B.idt, (TOp.add A B).ish⟩ := by
+    show andThen (A.adjC ⟨DT.promote A.odt B.odt, A.osh⟩) _ = _
+    rw [← hdo, DT.promote_self, hA.adjC_ok]
+    simp only [andThen_ok]
+    dsimp only [TOp.add]
+    rw [← hdo, DT.promote_self, hdo, ho, hB.adjC_ok]
+    simp [tadd, hi]
+  rw [key]
+  exact sealBlk_ok (t := ⟨DT.promote A.idt B.idt, (TOp.add A B).ish⟩) hA.ish_nh
 
 /-- `.T` as coded, operand with complex input dtype ≠ output dtype: the transpose cannot even be evaluated on a
     conforming input, and `adj` of its Hermitian transpose raises the dtype error for the conforming `y` -/
@@ -421,10 +451,7 @@ theorem trCoded_mixed_fails {A : TOp} (hg : A.guard = true) (hc : A.idt.cplx = t
   rw [e]
   constructor
   · simp [TOp.call, key]
-  · show (if (true && decide (A.idt ≠ A.idt)) = true then Except.error TErr.dtype
-        else if A.osh = A.osh then (if A.osh = A.osh then A.adjC ⟨A.idt, A.osh⟩ else .error .shape) else .error .shape)
-      = .error .dtype
-    simp [key]
+  · simp [TOp.adjC, TOp.herm, TOp.call, key, hg, hd]
 
 /-! ### concrete leaves for the non-vacuity examples and the negation witnesses -/
 
@@ -438,8 +465,9 @@ def stdLeaf (ish osh : Shp) (idt odt : DT) (g : Bool) : TOp where
   evalT := fun _ => .ok ⟨odt, osh⟩
   adjT := fun _ => .ok ⟨idt, ish⟩
 
-theorem stdLeaf_faithful (ish osh : Shp) (idt odt : DT) (g : Bool) : Faithful (stdLeaf ish osh idt odt g) :=
-  ⟨rfl, rfl⟩
+theorem stdLeaf_faithful (ish osh : Shp) (idt odt : DT) (g : Bool) (hi : TOp.isHet ish = false := by rfl)
+    (ho : TOp.isHet osh = false := by rfl) : Faithful (stdLeaf ish osh idt odt g) :=
+  ⟨rfl, rfl, hi, ho⟩
 
 /-- the environment of the recorded witness `mixed-operand-dtypes`:
     0 = SingleAxisFiniteDifference((3,), float64, circular=True), 1 = MatrixOperator(complex128 3×3),
